@@ -72,6 +72,7 @@ def run(prog, chk):
     chk.rule(checked_paths_are_used, prog, chk)
     chk.rule(cli_config_mapping, prog, chk)
     chk.rule(output_replaced_unconditionally, prog, chk)
+    chk.rule(io_discipline, prog, chk)
     chk.rule(server_stack, prog, chk)
     chk.rule(input_bytes_untouched, prog, chk)
     from props import C06
@@ -593,6 +594,39 @@ def output_replaced_unconditionally(prog, chk):
     skip = [x for x in rets if x in tf.reach([t["t"]], avoid=avoid)]
     # error blocks reached through `?` are excluded above; what remains are successful returns that skipped the copy
     chk.ob(not skip, "A13.output-replaced", "transform_file", tf.where(cb, copies[0][1].get("line")), "after a successful transform the result always replaces the output file", "transform_file can return successfully without copying the result over the output file: the file keeps the bytes of an earlier transform while stdout / the library give the new (e.g. empty) result")
+
+
+def io_discipline(prog, chk):
+    """what is written is exactly the result, and a failure to write it is an error:
+    (a) a file opened for writing through OpenOptions is truncated (or new, or appended to on purpose): `.write(true)
+        .create(true)` alone leaves the tail of a longer existing file behind the new content;
+    (b) a BufWriter put around a destination is flushed (or unwrapped with into_inner) by the function that made it: the
+        buffered tail is otherwise written by Drop, which discards the I/O error - the transform reports success"""
+    n = 0
+    for body in prog.bodies.values():
+        if not (body.unit or "").startswith("svgdx"):
+            continue
+        oo = {}
+        for (bb, t, c) in body.call_sites(lambda c: c.path.startswith("std::fs::OpenOptions::")):
+            oo.setdefault(c.path.split("::")[-1], []).append((bb, t))
+        if "open" in oo and any((op_const(t["args"][1]) or {}).get("bool") is True for (bb, t) in oo.get("write", []) if len(t["args"]) > 1):
+            n += 1
+            chk.touch(body)
+            safe = [k for k in ("truncate", "append", "create_new") if any((op_const(t["args"][1]) or {}).get("bool") is True for (bb, t) in oo.get(k, []) if len(t["args"]) > 1)]
+            bb, t = oo["open"][0]
+            chk.ob(bool(safe), "A13.write-discipline", f"{body.short}:open-for-write", body.where(bb, t.get("line")), f"the file opened for writing is {safe[0] if safe else ''}d/new: nothing of an older, longer file survives", f"{body.short} opens a file with OpenOptions .write(true) but neither .truncate(true), .append(true) nor .create_new(true): when the file exists and is longer than what is written, its old tail stays behind the new content")
+        news = body.call_sites(lambda c: c.path.startswith("std::io::BufWriter::<") and c.path.split("::")[-1] in ("new", "with_capacity"))
+        if news:
+            n += 1
+            chk.touch(body)
+            closes = body.call_sites(lambda c: (c.decl_path == "std::io::Write::flush" or c.path.split("::")[-1] in ("into_inner", "into_parts")) and "BufWriter" in c.inst)
+            handed_on = any((body.local_ty(l) or "").startswith("std::io::BufWriter<") for l in body.ret_locals)
+            bb, t, c = news[0]
+            if handed_on:
+                chk.ok("A13.write-discipline", f"{body.short}:buffered-writer", body.where(bb, t.get("line")), "the BufWriter is handed to the caller")
+            else:
+                chk.ob(bool(closes), "A13.write-discipline", f"{body.short}:buffered-writer", body.where(bb, t.get("line")), "the BufWriter made here is flushed / unwrapped here: a failing write surfaces as an error", f"{body.short} wraps its destination in a BufWriter and never calls flush() or into_inner() on it: the buffered tail (the whole document when it is small) is written by Drop, which ignores I/O errors - a transform whose output cannot be written returns Ok")
+    chk.ok("A13.write-discipline", "scan", "-", f"{n} OpenOptions-for-write / BufWriter construction site(s) in the crate's own code examined")
 
 
 def server_stack(prog, chk):
